@@ -102,7 +102,7 @@ var tsSecPool = func() []int64 {
 	out := []int64{0, 1, -1, 59, 60, 86399, 86400, -86400, -86401, minTimestampSeconds, minTimestampSeconds + 1, minTimestampSeconds - 1, maxTimestampSeconds, maxTimestampSeconds - 1, maxTimestampSeconds + 1,
 		1 << 31, -(1 << 31), 1<<31 - 1, 1 << 32, 1<<63 - 1, -1 << 63, 951782400 /* 2000-02-29 */, 4107542400 /* 2100-03-01 */}
 	for _, y := range []int64{1, 2, 4, 100, 400, 1582, 1600, 1700, 1900, 1969, 1970, 1972, 2000, 2024, 2038, 2100, 2400, 9996, 9999} {
-		for _, md := range [][2]int64{{1, 1}, {2, 28}, {3, 1}, {12, 31}} {
+		for _, md := range [][2]int64{{1, 1}, {2, 28}, {2, 29}, {3, 1}, {12, 31}} {
 			out = append(out, daysFromCivil(y, md[0], md[1])*86400, daysFromCivil(y, md[0], md[1])*86400+86399)
 		}
 	}
@@ -145,7 +145,7 @@ func TestTimestampMarshal(t *testing.T) {
 			}
 			return out
 		},
-		Quick: 20000, Thorough: 300000,
+		Quick: 60000, Thorough: 300000,
 	})
 }
 
@@ -217,15 +217,31 @@ const tsAlphabet = "0123456789TtZz:.,+- "
 
 func drawTimestampString(t *rapid.T) strCase {
 	c := strCase{Field: rapid.IntRange(0, 4).Draw(t, "field") == 0}
+	class := rapid.IntRange(0, 11).Draw(t, "class")
+	// odd: how many fields may take an out-of-grammar alternative (0 for the strict classes)
+	odd := 0
+	switch {
+	case class >= 4 && class <= 6:
+		odd = 1
+	case class == 7:
+		odd = 2
+	case class >= 8:
+		odd = rapid.IntRange(0, 1).Draw(t, "oddMut")
+	}
+	oddAt := map[int]bool{}
+	for i := 0; i < odd; i++ {
+		oddAt[rapid.IntRange(0, 9).Draw(t, "oddAt")] = true
+	}
+	fieldNo := 0
 	pick := func(label string, common []string, rare []string) string {
-		if rapid.IntRange(0, 5).Draw(t, label+"Rare") == 0 {
+		fieldNo++
+		if oddAt[fieldNo-1] {
 			return rapid.SampledFrom(rare).Draw(t, label+"R")
 		}
 		return rapid.SampledFrom(common).Draw(t, label)
 	}
 	two := func(label string, lo, hi int) string { return fmt.Sprintf("%02d", rapid.IntRange(lo, hi).Draw(t, label)) }
-	class := rapid.IntRange(0, 9).Draw(t, "class")
-	if class == 9 {
+	if class == 11 {
 		c.Class = "constant"
 		c.S = rapid.SampledFrom([]string{
 			"2000-01-01T00:00:00,1234567890123Z", "2000-01-01T0:00:00Z", "2000-01-01T00:00:00+24:00", "2000-01-01T00:00:00+23:60", "2000-01-01T00:00:00,5Z", "2000-01-01T00:00:00-24:00",
@@ -241,14 +257,25 @@ func drawTimestampString(t *rapid.T) strCase {
 		return c
 	}
 	year := pick("year", []string{"0001", "0002", "1969", "1970", "1999", "2000", "2024", "2100", "9998", "9999"}, []string{"0000", "10000", "970", "+2000", "-0001", fmt.Sprintf("%04d", rapid.IntRange(0, 9999).Draw(t, "y"))})
-	month := pick("month", []string{"01", "02", "03", "04", "06", "11", "12"}, []string{"00", "13", "1", "012", two("mo", 1, 12)})
-	day := pick("day", []string{"01", "02", "28", "29", "30", "31"}, []string{"00", "32", "1", "031", two("d", 1, 31)})
+	month := pick("month", []string{"01", "02", "02", "03", "04", "06", "11", "12", two("moV", 1, 12)}, []string{"00", "13", "1", "012", two("mo", 1, 12)})
+	day := pick("day", []string{"01", "02", "28", "29", "30", "31", two("dV", 1, 28)}, []string{"00", "32", "1", "031", two("d", 1, 31)})
 	sep := pick("sep", []string{"T"}, []string{"t", " ", "", "_", "TT"})
-	hour := pick("hour", []string{"00", "01", "12", "23"}, []string{"24", "0", "9", "1", "023", two("h", 0, 23)})
-	minute := pick("minute", []string{"00", "01", "30", "59"}, []string{"60", "0", "5", "059", two("mi", 0, 59)})
-	second := pick("second", []string{"00", "01", "30", "59"}, []string{"60", "61", "0", "5", "059", two("s", 0, 59)})
+	hour := pick("hour", []string{"00", "01", "12", "23", two("hV", 0, 23)}, []string{"24", "0", "9", "1", "023", two("h", 0, 23)})
+	minute := pick("minute", []string{"00", "01", "30", "59", two("miV", 0, 59)}, []string{"60", "0", "5", "059", two("mi", 0, 59)})
+	second := pick("second", []string{"00", "01", "30", "59", two("sV", 0, 59)}, []string{"60", "61", "0", "5", "059", two("s", 0, 59)})
 	frac := ""
-	switch rapid.IntRange(0, 7).Draw(t, "fracClass") {
+	fracClass := rapid.IntRange(0, 7).Draw(t, "fracClass")
+	if odd == 0 && class < 8 && fracClass >= 3 { // strict classes: '.' with 1..9 digits only
+		fracClass = 8
+	}
+	switch fracClass {
+	case 8:
+		n := rapid.SampledFrom([]int{1, 2, 3, 6, 8, 9, 9}).Draw(t, "fracStrictN")
+		b := make([]byte, n)
+		for i := range b {
+			b[i] = byte('0' + rapid.IntRange(0, 9).Draw(t, "fd"))
+		}
+		frac = "." + string(b)
 	case 0, 1, 2:
 	case 3, 4, 5:
 		n := rapid.IntRange(0, 12).Draw(t, "fracN")
@@ -279,7 +306,10 @@ func drawTimestampString(t *rapid.T) strCase {
 	}
 	c.S = year + "-" + month + "-" + day + sep + hour + ":" + minute + ":" + second + frac + zone
 	c.Class = "grammar"
-	if class >= 7 {
+	if odd > 0 {
+		c.Class = "grammar-odd"
+	}
+	if class >= 8 {
 		c.Class = "mutation"
 		ch := string(tsAlphabet[rapid.IntRange(0, len(tsAlphabet)-1).Draw(t, "ch")])
 		j := rapid.IntRange(0, len(c.S)).Draw(t, "at")
@@ -328,7 +358,7 @@ func TestTimestampParse(t *testing.T) {
 		Check:      checkTimestampString,
 		NonTrivial: tsNonTrivial,
 		Classes:    tsClasses,
-		Quick:      50000, Thorough: 800000,
+		Quick:      150000, Thorough: 800000,
 	})
 }
 
